@@ -88,7 +88,7 @@ PROPS = {
                  'the contract (permutation, non-decreasing, stable, refusal of incomparable keys, first representatives, partition, identities). Panics are recorded, CPU budget per case.',
         'note': 'sort order of array-valued keys uses the engine order (whose lawfulness C15 checks) because the docs and the code disagree on it; a missing attribute may be an error or be discarded',
         'rule': "one evaluation = one render of a collection-filter template; a cell = (filter template, mix of key kinds in the array, length class [0,1,small,merge,large], ok/err)",
-        'must_observe': ['sorts_verified', 'uniques_verified', 'group_bys_verified', 'nth_verified'],
+        'must_observe': ['sorts_verified', 'uniques_verified', 'group_bys_verified', 'nth_verified', 'hostile_attribute_paths'],
     },
     'C17': {
         'scale': {'quick': 10, 'thorough': 12},
@@ -208,8 +208,8 @@ PROPS = {
         'level': 'exploration',
         'technique': 'independent graph oracle (exact-then-prefix name resolution, plain DFS for cycles) compared with the engine verdict and error kind on generated extends/include digraphs; every accepted set rendered in a supervised child process with a CPU watchdog',
         'claim': 'Random digraphs on 1-10 templates (<= 1 extends edge per node; include edges at top level, in dead branches, captures, component bodies, loops, blocks, filter sections and else branches), self-loops, cycles of length 2-10 entered from a tail, '
-                 'dangling targets, targets reachable only through a fallback prefix, exact-vs-prefix shadowing, acyclic include and extends chains of depth 1-32 (deterministic sweep), and the mixed family (include edges inside blocks of templates in an extends relation, with super()). '
-                 'Each graph is registered as one batch (either order) or in two steps (the set with the edges of one template cut, then that template again with its real source). The engine must accept exactly the graphs the oracle finds sound and reject the others with an error kind in the oracle\'s admissible set; every template of every accepted set is then rendered: text or an error, never a dead process or a CPU-budget overrun.',
+                 'dangling targets, targets reachable only through a fallback prefix, exact-vs-prefix shadowing, two prefixes of different priority with twin templates under both, acyclic include and extends chains of depth 1-32 (deterministic sweep), and the mixed family (include edges inside blocks of templates in an extends relation, with super()). '
+                 'Each graph is registered as one batch (either order) or in two steps (the set with the edges of one template cut, then that template again with its real source). The engine must accept exactly the graphs the oracle finds sound and reject the others with an error kind in the oracle\'s admissible set; every template of every accepted set is then rendered: text or an error, never a dead process or a CPU-budget overrun, and text without fail when the graph has no extends edge (nothing can recurse then).',
         'note': 'when several faults coexist any corresponding kind is accepted; termination is decided as bounded progress (20 s CPU per case, confirmed alone with 10x); stack verdicts for an 8 MiB stack and the optimised build',
         'rule': "one evaluation = one registration or one render; a cell = (shape class incl. cycle length/tail or chain depth, engine verdict, set of include placements, prefix in use)",
         'must_observe': ['graphs_accepted', 'graphs_rejected', 'renders_supervised', 'graphs_completed_in_a_second_step'],
